@@ -360,7 +360,8 @@ def saslprep(source, param="value"):
     )
 
     # normalize to KC form
-    data = unicodedata.normalize("NFKC", data)
+    # NOTE: stringprep (rfc3454) is defined in terms of unicode 3.2, same as the stdlib's stringprep tables
+    data = unicodedata.ucd_3_2_0.normalize("NFKC", data)
     if not data:
         return _UEMPTY
 
